@@ -98,11 +98,11 @@ def draw_metadata(sim: Sim) -> dict[str, Any]:
     return md
 
 
-def draw_output(sim: Sim, special: bool = True, max_rows: int = 6, max_cols: int = 6):
+def draw_output(sim: Sim, special: bool = True, max_rows: int = 6, max_cols: int = 6, large_den: int = 10):
     from incomplete_cooperative.run.save import Output
     rows = 1 + sim.choose(max_rows, "rows")
     cols = 1 + sim.choose(max_cols, "cols")
-    if sim.flip(1, 10, "large-matrix"):  # results big enough to cross buffer / chunk boundaries (8 KiB .. 100 KiB of JSON)
+    if large_den and sim.flip(1, large_den, "large-matrix"):  # results big enough to cross buffer / chunk boundaries (8 KiB .. 100 KiB of JSON)
         rows = 20 + sim.choose(60, "rows-large")
         cols = 10 + sim.choose(50, "cols-large")
     data = draw_matrix(sim, rows, cols, special)
